@@ -19,7 +19,7 @@ class C10(GProp):
     files = ['tephra-combinator/src/bracket.rs']
     rule = ('all token strings up to the tier bound over {three bracket kinds, plain token, separator, whitespace (filtered), '
             'rejected char} x every non-empty ordered subset of kinds passed to the combinator x abort sets x the four bracket '
-            'combinators x sink on/off, plus seeded random deeper nestings; inner parsers that read less than, exactly, or more '
+            'combinators x sink on/off, plus seeded random deeper nestings, and repetitions that invoke the same bracket parser object again after it failed; inner parsers that read less than, exactly, or more '
             'than the bracket contents; classification (matched/none/unopened/unclosed/mismatch), pair index, value and the '
             'token following the partner are compared with a python reference stack matcher; non-trivial = >= 2 bracket tokens '
             'of >= 2 kinds; distinct by case')
@@ -60,6 +60,15 @@ class C10(GProp):
                 else:
                     t.append(r.choice(['a', 'a', 'comma', 'sp', 'b', 'bang']))
             kinds = r.choice([[0, 1], [1, 0], [0, 1, 2], [2, 1], [0, 2], [2, 1, 0]])
+            if i % 4 == 3:
+                # the SAME bracket parser object invoked again and again, also after it failed (unclosed, mismatch, unopened): a
+                # repetition whose item is "the bracket parser, or else skip one token"; each invocation must match as a fresh one
+                n += 1
+                br = [r.choice(VARIANTS), [PAIRS[k][0] for k in kinds], r.choice(inners[:5]), [PAIRS[k][1] for k in kinds], r.choice([[], [], ['Comma']])]
+                skip = ['any', 'A', 'B', 'Comma', 'LP', 'RP', 'LK', 'RK', 'LC', 'RC']
+                g = ['repeat', 0, 'inf', ['either', ['map', 1, br], ['map', 2, skip]]]
+                out.append(parsegen.parse_case('c%d' % n, [x for x in t if x != 'bang'], g, sink=0))
+                continue
             add(t, kinds, r.choice([[], ['Comma'], ['A'], ['B', 'Comma']]), r.choice(VARIANTS), r.choice(inners), r.below(2))
         return out
 
